@@ -546,6 +546,11 @@ where
                 // removes the edge of a synced range while it is still in the sampling
                 // window, so everything below it is outside of the window too. Without
                 // this check we would keep requesting a batch that can not be inserted.
+                //
+                // Pruner may have removed it after `pruned_ranges` was read, so that
+                // snapshot can't be trusted here.
+                let pruned_ranges = self.store.get_pruned_ranges().await?;
+
                 if pruned_ranges.contains(next_batch.end() + 1) {
                     return Ok(());
                 }
